@@ -52,7 +52,7 @@ def main(argv=None):
     result = {"shard": a.shard, "ok": False}
     t0 = time.time()
     try:
-        from vp import env
+        from vp import env, pbt
         scratch = env.stage()
         mod = importlib.import_module(f"vp.checks.{a.check.lower()}")
         known = json.load(open(a.known)) if a.known else []
@@ -64,7 +64,7 @@ def main(argv=None):
         for k in known:
             try:
                 env.reset_caches()
-                out = mod.EVALUATORS[k["example"]["check"]](k["example"]["case"])
+                out = pbt.run_case(mod.EVALUATORS[k["example"]["check"]], k["example"]["case"])
                 sigs = [d.signature for d in out.discrepancies]
                 still[k["signature"]] = k["signature"] in sigs
             except Exception as e:  # an example that cannot be replayed is not tolerated
@@ -76,7 +76,7 @@ def main(argv=None):
         if a.replay:
             rec = json.load(open(a.replay))
             env.reset_caches()
-            out = mod.EVALUATORS[rec["check"]](rec["case"])
+            out = pbt.run_case(mod.EVALUATORS[rec["check"]], rec["case"])
             result["replay"] = [{"signature": d.signature, "detail": d.detail} for d in out.discrepancies]
             result["ok"] = True
         else:
